@@ -90,7 +90,7 @@ def coq_case(ts, rmask, small):
     rm = S.coq_bools(rmask)
     nn = cnat(ts.num_nodes)
     ref = ("Some (ref_unary es (fun _ => false) %s %s, ref_unary es (of_list false %s) %s %s)" % (nn, L, smp, nn, L)
-           if small else "None")
+           if small else "@None (bool * bool)")
     return ("(let es := %s in let ins := %s in let rem := %s in "
             "(valid_tablesb %s es ins rem, "
             "contains_unary_nodes es (of_list false %s) true %s ins rem, "
@@ -105,12 +105,12 @@ def coq_case(ts, rmask, small):
 
 def run_model(ctx, items):
     out = []
-    for i in range(0, len(items), 150):
-        chunk = items[i:i + 150]
-        body = "Definition cases := %s.\nEval vm_compute in cases.\n" % clist(
-            [coq_case(ts, rmask, small) for ts, rmask, small in chunk])
+    for i in range(0, len(items), 300):
+        chunk = items[i:i + 300]
+        body = "".join("Eval vm_compute in %s.\n" % coq_case(ts, rmask, small) for ts, rmask, small in chunk)
         res = ctx.coq_eval(body, requires=("lib.Tables", "model.Sweep", "model.Unary"), tag="unary")
-        out.extend(res[0])
+        assert len(res) == len(chunk), (len(res), len(chunk))
+        out.extend(res)
     return out
 
 
@@ -264,6 +264,10 @@ def run_e2e(ctx, n):
 
 
 def run(ctx, model_ok=True):
+    import logging
+    import warnings
+    logging.disable(logging.WARNING)          # tsdate warns about every unary input
+    warnings.simplefilter("ignore")
     n = ctx.n(220, 2500)
     items = []
     for _ in range(n):
